@@ -16,9 +16,11 @@ Definition dec_C55 (i : val) : option (list (bytes * bytes) * bytes * bytes) :=
   | _ => None
   end.
 
-Definition out_C55 (ps : list (bytes * bytes)) (body resp : bytes) : val :=
+(* the body delivery mode (third column): > 0 read size of an io.Reader, <= 0 a WriterTo writing -bc bytes per Write *)
+Definition bc_of (i : val) : Z := match i with VL [_; _; VZ bc; _] => bc | _ => 1 end.
+Definition out_C55 (bc : Z) (ps : list (bytes * bytes)) (body resp : bytes) : val :=
   let '(st, code) := client_stream resp in
-  VL [VB (do_written ps body); VB st; VZ code].
+  VL [VB (do_written bc ps body); VB st; VZ code].
 
 (* ---- op 2: Transport.RoundTrip end to end ----
    input [2 method scheme host remote path query proto clen [[hname [hval ...]] ...] root [[ename eval] ...] body resp]
@@ -39,7 +41,7 @@ Definition out2_C55 (ps : list (bytes * bytes)) (body resp : bytes) : val :=
   let '(st, code) := client_stream resp in
   match parse_reply st code with
   | Some (rterr, status, rbody) =>
-    VL [VB (do_written ps body); VZ rterr; VZ status; VB rbody;
+    VL [VB (do_written 1 ps body); VZ rterr; VZ status; VB rbody;
         VZ (if rterr =? 0 then (if code =? 0 then 0 else 1) else 0)]
   | None => VErr 7                      (* reply outside the modelled sub-language: never generated *)
   end.
@@ -47,7 +49,7 @@ Definition out2_C55 (ps : list (bytes * bytes)) (body resp : bytes) : val :=
 (* the model's answer for the parameter order given in the input (Go iterates the map in an arbitrary order) *)
 Definition run_C55 (i : val) : val :=
   match dec_C55 i with
-  | Some (ps, body, resp) => out_C55 ps body resp
+  | Some (ps, body, resp) => out_C55 (bc_of i) ps body resp
   | None =>
     match dec2_C55 i with
     | Some (q, body, resp) => out2_C55 (meta_pairs q) body resp
@@ -68,7 +70,7 @@ Definition agree_C55 (i o : val) : bool :=
     | Some (l, _) =>
       (length l =? length ps)%nat &&
       match reorder (map fst l) ps with
-      | Some ps' => val_eqb (out_C55 ps' body resp) o
+      | Some ps' => val_eqb (out_C55 (bc_of i) ps' body resp) o
       | None => false
       end
     | None => false
